@@ -836,6 +836,13 @@ func (r *readerRun) exec(sc *xport.ScriptConn, outp *[]Ev) (out []Ev) {
 			e := r.classify(err)
 			atomic.StoreInt32(&r.healed, h) // a write-side report is not the report of the read-side fault
 			out = append(out, Ev{"e": "WCL", "err": e, "obs": r.takeObs()})
+		case "WCP":
+			// a WriteControl whose deadline has already passed: times out, writes nothing, poisons nothing
+			err := c.WriteControl(websocket.PingMessage, []byte("late"), time.Now().Add(-time.Second))
+			h := atomic.LoadInt32(&r.healed)
+			e := r.classify(err)
+			atomic.StoreInt32(&r.healed, h)
+			out = append(out, Ev{"e": "WCP", "err": e, "obs": r.takeObs()})
 		case "SRD":
 			// SetReadDeadline is a pass-through: it must not change what the read API reports
 			err := c.SetReadDeadline(time.Time{})
